@@ -177,35 +177,44 @@ def gen_fill_var_rec(np):
 
 
 META_OPS = [
-    # (name, list of per-rank-differing variants: (op, kwargs for rank 0..), expected multidefine family)
-    ('def_dim_len', 'def_dim', lambda r: dict(name='d', len=3 + (r == 1))),
-    ('def_dim_name', 'def_dim', lambda r: dict(name='d%d' % (r == 1), len=3)),
-    ('def_var_type', 'def_var', lambda r: dict(name='v', xtype='int' if r != 1 else 'float', dims=[1])),
-    ('def_var_dims', 'def_var', lambda r: dict(name='v', xtype='int', dims=[1] if r != 1 else [2])),
-    ('put_att_val', 'put_att', lambda r: dict(v=-1, name='a', xtype='int', n=1, vals=[5 + (r == 1)])),
-    ('put_att_len', 'put_att', lambda r: dict(v=-1, name='a', xtype='int', n=1 + (r == 1), vals=[5] * (1 + (r == 1)))),
-    ('rename_var', 'rename_var', lambda r: dict(v=0, name='n%d' % (r == 1))),
-    ('set_fill', 'set_fill', lambda r: dict(mode=int(r == 1))),
-    ('_enddef', '_enddef', lambda r: dict(h_minfree=4 * (r == 1))),
+    # (name, op, kwargs for (rank, is this the rank whose argument differs))
+    ('def_dim_len', 'def_dim', lambda r, d: dict(name='d', len=3 + d)),
+    ('def_dim_name', 'def_dim', lambda r, d: dict(name='d%d' % d, len=3)),
+    ('def_var_type', 'def_var', lambda r, d: dict(name='v', xtype='int' if not d else 'float', dims=[1])),
+    ('def_var_dims', 'def_var', lambda r, d: dict(name='v', xtype='int', dims=[1] if not d else [2])),
+    ('put_att_val', 'put_att', lambda r, d: dict(v=-1, name='a', xtype='int', n=1, vals=[5 + d])),
+    ('put_att_len', 'put_att', lambda r, d: dict(v=-1, name='a', xtype='int', n=1 + d, vals=[5] * (1 + d))),
+    ('put_att_len0', 'put_att', lambda r, d: dict(v=-1, name='a', xtype='int', n=0 if d else 2, vals=None if d else [5, 6])),      # zero length on one rank
+    ('put_att_len0rest', 'put_att', lambda r, d: dict(v=-1, name='a', xtype='int', n=2 if d else 0, vals=[5, 6] if d else None)),  # zero length on all but one
+    ('put_att_type', 'put_att', lambda r, d: dict(v=-1, name='a', xtype='short' if d else 'int', mem='int', n=1, vals=[5])),       # same API (memory type), other external type
+    ('rename_var', 'rename_var', lambda r, d: dict(v=0, name='n%d' % d)),
+    ('set_fill', 'set_fill', lambda r, d: dict(mode=int(d))),
+    ('_enddef', '_enddef', lambda r, d: dict(h_minfree=4 * d)),
 ]
 
 
 def gen_safe_meta(np):
-    """safe mode: arguments of collective metadata calls differ on exactly one rank -> same error code on every rank"""
+    """safe mode: arguments of collective metadata calls differ on exactly one rank (the root or the last one) -> same error code
+    on every rank, and the next, consistent, call works"""
     cases = []
     dims, vars_ = dims_vars(np)
     for name, op, kwf in META_OPS:
-        s = Script('SM-np%d-%s' % (np, name), np, 1, dims, vars_, env={'PNETCDF_SAFE_MODE': '1'}, define=False)
-        s.meta = dict(api=op, roles=('differ',), v=-1)
-        s.op('*', 'create', f=0, path='a.nc', fmt=1)
-        s.op('*', 'def_dim', name='t', unlim=1); s.op('*', 'def_dim', name='r', len=np); s.op('*', 'def_dim', name='x', len=NX)
-        s.op('*', 'def_var', name='fix', xtype='int', dims=[1, 2])
-        lns = []
-        for r in range(np):
-            lns.append(s.op(r, op, expect_rc=None, f=0, **kwf(r)))
-        s.meta['lines'] = lns
-        s.op('*', 'close', f=0, expect_rc=None)
-        cases.append(s)
+        for who in (np - 1, 0):
+            s = Script('SM-np%d-%s-r%d' % (np, name, who), np, 1, dims, vars_, env={'PNETCDF_SAFE_MODE': '1'}, define=False)
+            s.meta = dict(api=op, roles=('differ',), v=-1)
+            s.op('*', 'create', f=0, path='a.nc', fmt=1)
+            s.op('*', 'def_dim', name='t', unlim=1); s.op('*', 'def_dim', name='r', len=np); s.op('*', 'def_dim', name='x', len=NX)
+            s.op('*', 'def_var', name='fix', xtype='int', dims=[1, 2])
+            lns = []
+            for r in range(np):
+                lns.append(s.op(r, op, expect_rc=None, f=0, **{k: v for k, v in kwf(r, int(r == who)).items() if v is not None}))
+            s.meta['lines'] = lns
+            if op != '_enddef':
+                # a consistent call right afterwards must not be disturbed by whatever the disagreement left behind
+                s.op('*', 'put_att', f=0, v=-1, name='after', xtype='int', n=2, vals=[1, 2])
+                s.op('*', 'def_dim', f=0, name='dafter', len=4)
+            s.op('*', 'close', f=0, expect_rc=None)
+            cases.append(s)
     return cases
 
 
